@@ -12,6 +12,18 @@ Spec:
    "script": [o, ...]          outcome of the k-th send()/fd_write() call: "all" | int k (accept k of n, resolved
                                into 1..n-1; n <= 1: accept all) | errno name; calls after the script accept all
    "close":  null | int        close request fired after that many writes (resolved modulo len(sizes)+1)
+   "closekind": "request"|"eof" how the close is requested (default "request" = a close event). "eof" (server
+                               connection, TCP/UNIX client; File: taken as "request"): the peer ends its stream - from
+                               that position on recv() of the double returns b'' and the harness fires the poller's
+                               _read(sock) at the endpoint there and, like a level-triggered poller, in every later
+                               loop iteration while the descriptor is still registered as reader (a descriptor that is
+                               no reader any more at that position - closed by a fatal error - never sees the EOF);
+                               the peer keeps reading (half-close), so send() goes on following the script
+   "rfirst": bool              order inside one loop iteration: _read before _write (Poll/EPoll) or after it (Select)
+   "text":   [0|1|2, ...]      File only: payload i is written as bytes (0; [] = all bytes), as ASCII str (1) or as str
+                               with 1-, 2- and 3-byte UTF-8 characters (2) of n CHARACTERS (n capped at 64 KiB+1);
+                               the list is applied cyclically ([2] = every payload is multi-byte text);
+                               the bytes expected on the descriptor are the text encoded with File's encoding (utf-8)
    "pump":   [int, ...]        loop iterations run after the i-th operation (missing: 0 = same tick as the next op)
    "closeall": bool            server only: the close request is close() of the whole server, not close(sock)
    "other":  int               server only: number of writes to a second, fault-free connection, interleaved
@@ -20,8 +32,9 @@ Spec:
 Oracle (observations: bytes accepted by the double, its close()/shutdown(), error/disconnect events):
   * always: accepted bytes are a prefix of the concatenation of all payloads written (nothing repeated,
     reordered, foreign);
-  * no fatal error raised: everything written before the close request is accepted (all of it when no close is
-    requested); a requested close has taken effect at quiescence; writer interest is given up;
+  * no fatal error raised: everything written before the close request (the dispatch of the _read that sees the
+    end of the peer's stream) is accepted (all of it when no close is requested); a requested close has taken
+    effect at quiescence; writer interest is given up;
   * after the endpoint announced disconnect/disconnected/closed no further byte is accepted;
   * fatal error raised by a send: an error/disconnect/disconnected (File: closed) event is dispatched afterwards.
 """
@@ -48,6 +61,7 @@ FATAL = ('EPIPE', 'ECONNRESET', 'ENOTCONN', 'ETIMEDOUT')
 ENUM_OUTCOMES = ('all', 2, 'EAGAIN', 'EWOULDBLOCK', 'EINTR', 'ENOBUFS', 'EPIPE', 'ECONNRESET')
 ENUM_SIZES = [4, 3, 5, 2]
 ENUM_CLOSE = [None, 1, 2, 4]
+ENUM_NEW_LEN = 2   # the new close kind / str payloads are enumerated for scripts up to this length only (cost)
 ENDPOINTS = ('server', 'tcpclient', 'file', 'unixclient')
 
 BLOCK_LEN = 6 << 20
@@ -71,6 +85,17 @@ def _stream(off, n):
     return b''.join(parts)
 
 
+TEXT_MAX = 65537
+_TO_ASCII = bytes(i & 0x7F for i in range(256))
+
+
+def _text(kind, off, n):
+    """n characters derived from the stream at offset off: kind 1 = ASCII, kind 2 = code page 437 (the 128 upper
+    characters take 2 or 3 bytes each in UTF-8, so character index != byte index almost everywhere)."""
+    raw = _stream(off, n)
+    return raw.translate(_TO_ASCII).decode('ascii') if kind == 1 else raw.decode('cp437')
+
+
 # --------------------------------------------------------------------------------------------- doubles
 class Wire:
     """What the OS saw on one descriptor."""
@@ -80,6 +105,7 @@ class Wire:
         self.pos = 0
         self.accepted = bytearray()
         self.calls = []          # (kind, outcome, len(data))
+        self.offs = []           # parallel to calls: (bytes accepted before the call, bytes accepted by it)
         self.closed_at = None    # len(accepted) at the first shutdown()/close() of the double
         self.after_close = 0     # send attempts on the closed double (they fail with EBADF like the real thing)
         self.fatal_calls = []    # indices into calls
@@ -112,12 +138,14 @@ class Wire:
             elif self.pending(len(self.accepted)) >= 2:
                 self.hard += 1
             self.calls.append((kind, act, n))
+            self.offs.append((len(self.accepted), 0))
             self.consumed.add(kind)
             code = getattr(errno, act)
             raise OSError(code, os.strerror(code))
         if kind == 'part' and self.pending(len(self.accepted)) >= 2:
             self.hard += 1
         self.calls.append((kind, act, n))
+        self.offs.append((len(self.accepted), k))
         self.consumed.add(kind)
         self.accepted += data if k == n else data[:k]
         return k
@@ -129,6 +157,7 @@ class ScriptSock(socket.socket):
     def __init__(self, script, family=socket.AF_INET):
         super().__init__(family, socket.SOCK_STREAM)
         self.wire = Wire(script)
+        self.eof = False         # the peer has ended its stream: recv() returns b''
 
     def getpeername(self):
         return ('127.0.0.1', 5555)
@@ -146,6 +175,8 @@ class ScriptSock(socket.socket):
         return self.wire.send(data)
 
     def recv(self, n, *flags):
+        if self.eof:
+            return b''
         raise OSError(errno.EWOULDBLOCK, os.strerror(errno.EWOULDBLOCK))
 
     def shutdown(self, how):
@@ -212,6 +243,7 @@ class Obs(BaseComponent):
         self.log = []           # (name, calls so far, accepted so far)
         self.writes = 0         # write events for the main descriptor dispatched so far
         self.close_seen = None  # (writes dispatched, bytes accepted) when the close request was dispatched
+        self.eof_seen = None    # the same for the first _read that finds the end of the peer's stream
         self.exceptions = []
 
     @handler('error', 'disconnect', 'disconnected', 'closed', channel='*', priority=100)
@@ -234,6 +266,11 @@ class Obs(BaseComponent):
         if self.close_seen is None:
             self.close_seen = (self.writes, len(self.wire.accepted))
 
+    @handler('_read', channel='*', priority=100)
+    def _on_read(self, event, *args, **kwargs):
+        if self.eof_seen is None and args and args[0] is self.main and getattr(self.main, 'eof', False):
+            self.eof_seen = (self.writes, len(self.wire.accepted))
+
     @handler('exception', channel='*', priority=100)
     def _on_exception(self, event, etype, value, tb, handler=None, fevent=None):
         self.exceptions.append('%s: %s' % (getattr(etype, '__name__', etype), value))
@@ -251,16 +288,24 @@ class C11(Prop):
     rule = ('case = endpoint (TCPServer connection | TCPClient | UNIXClient | File) x list of payload sizes '
             '(0..64, 4096, 4097, 64 KiB+1, 1 MiB; thorough also 2 MiB+1 and 3 MiB) x script of send()/fd_write() outcomes '
             '(accept all | accept k of n | EAGAIN | EWOULDBLOCK | EINTR | ENOBUFS | EPIPE | ECONNRESET | ENOTCONN | '
-            'ETIMEDOUT) x position of the close request (none, before/between/after the writes; server: close(sock) '
-            'or close()) x loop iterations between operations; the harness plays the poller. Exhaustive part: all '
+            'ETIMEDOUT) x position of the close request (none, before/between/after the writes) x kind of close '
+            '(close event - server: close(sock) or close() - | sockets: end of the peer\'s stream = recv() returns b\'\' '
+            'at the poller\'s _read, level-triggered, peer keeps reading) x loop iterations between operations x order '
+            'of _read/_write inside an iteration; File payloads are bytes, ASCII str or str with 1-3-byte UTF-8 '
+            'characters (<= 64 KiB+1 characters; expected bytes = text.encode(utf-8)); the harness plays the poller. '
+            'Exhaustive part: all '
             'scripts of length <= 3 over the 8 outcomes of the quantifier x {server, tcpclient, file} x 4 close '
-            'positions, payloads 4,3,5,2 bytes, x {all operations in one tick, one loop iteration after each operation}. '
+            'positions, payloads 4,3,5,2 bytes, x {all operations in one tick, one loop iteration after each operation}; '
+            'for scripts of length <= 2 also the 3 close positions as end of the peer\'s stream (server, tcpclient) and '
+            'the payloads as multi-byte str of 4,3,5,2 characters (file). '
             'non-trivial = a partial accept or a '
             'transient refusal was actually consumed by a send() while >= 2 non-empty written payloads were not yet '
             'fully accepted; distinct = distinct spec hash')
     assumptions = (
         'send() never accepts 0 bytes of a non-empty payload (a real kernel raises EAGAIN instead)',
-        'what happens to payloads written after the close request is only constrained to "in order, once, not after the endpoint closed"',
+        'what happens to payloads written after the close request (after the _read event that found the end of the peer\'s stream was dispatched) is only constrained to "in order, once, not after the endpoint closed"',
+        'the end of the peer\'s stream is a half-close: the peer still reads, send() keeps following the script; an endpoint that reads b\'\' has requested its own close at that moment',
+        'a str payload stands for its encoding with the File\'s encoding (utf-8 here); only File accepts str',
         'a send attempt on the already closed descriptor (fails with EBADF, nothing reaches the OS) is not counted as a write after close',
         'poller contract as verified by C10: _write(fd) is delivered once per iteration while the component is registered as writer',
     )
@@ -289,6 +334,9 @@ class C11(Prop):
             'pump': st.lists(st.sampled_from([0, 0, 0, 1, 1, 2, 4]), max_size=10),
             'closeall': st.sampled_from([False, False, False, True]),
             'other': st.sampled_from([0, 0, 0, 1, 2, 3]),
+            'closekind': st.sampled_from(['request', 'request', 'eof']),
+            'rfirst': st.booleans(),
+            'text': st.lists(st.sampled_from([0, 1, 2, 2]), max_size=4),
         })
 
     def enumerate(self, tier):
@@ -299,8 +347,13 @@ class C11(Prop):
                 for ep in ('server', 'tcpclient', 'file'):
                     for c in ENUM_CLOSE:
                         for pump in ([], [1] * 5):   # all operations in one tick | one loop iteration after each
-                            out.append({'ep': ep, 'sizes': ENUM_SIZES, 'script': list(script), 'close': c,
-                                        'pump': pump, 'closeall': False, 'other': 0})
+                            base = {'ep': ep, 'sizes': ENUM_SIZES, 'script': list(script), 'close': c,
+                                    'pump': pump, 'closeall': False, 'other': 0}
+                            out.append(base)
+                            if ep != 'file' and c is not None and ln <= ENUM_NEW_LEN:   # the same close position as the peer's end of stream
+                                out.append(dict(base, closekind='eof'))
+                            if ep == 'file' and ln <= ENUM_NEW_LEN:   # the same payload sizes as multi-byte text
+                                out.append(dict(base, text=[2]))
         return out
 
     # ------------------------------------------------------------------ real execution
@@ -312,12 +365,24 @@ class C11(Prop):
             close_at %= len(sizes) + 1
         pump = list(spec.get('pump') or [])
         n_other = spec.get('other', 0) if ep == 'server' else 0
+        eof = close_at is not None and spec.get('closekind') == 'eof' and ep != 'file'
+        closeall = bool(spec.get('closeall')) and ep == 'server' and close_at is not None and not eof
+        text = list(spec.get('text') or []) if ep == 'file' else []
+        kinds = [text[i % len(text)] if text else 0 for i in range(len(sizes))]
 
-        payloads = []
+        payloads = []   # what is written: bytes | str
+        expected = []   # the bytes that have to reach the descriptor for it
         off = 0
-        for n in sizes:
-            payloads.append(_stream(off, n))
+        for n, kind in zip(sizes, kinds):
+            if kind:
+                n = min(n, TEXT_MAX)
+                payloads.append(_text(kind, off, n))
+                expected.append(payloads[-1].encode('utf-8'))
+            else:
+                payloads.append(_stream(off, n))
+                expected.append(payloads[-1])
             off += n
+        lens = [len(e) for e in expected]
         others = [_stream(BLOCK_LEN // 2 + 977 * i, 5 + 3 * i) for i in range(n_other)]
 
         root = Manager()
@@ -328,7 +393,7 @@ class C11(Prop):
         exc = None
         obs = None
         still_writing = []
-        state = {'stuck': False, 'setup': True}
+        state = {'stuck': False, 'setup': True, 'eof_fired': False}
         try:
             if ep == 'server':
                 main = ScriptSock(spec['script'])
@@ -363,12 +428,12 @@ class C11(Prop):
 
             ends = []
             t = 0
-            for n in sizes:
+            for n in lens:
                 t += n
                 ends.append(t)
 
             def pending(accepted):
-                return sum(1 for i in range(min(obs.writes, len(sizes))) if sizes[i] and ends[i] > accepted)
+                return sum(1 for i in range(min(obs.writes, len(lens))) if lens[i] and ends[i] > accepted)
 
             wire.pending = pending
 
@@ -378,10 +443,19 @@ class C11(Prop):
                     out.append(other)
                 return [f for f in out if f.wire.closed_at is None]
 
+            def readable():
+                # level-triggered: the end of the peer's stream is reported as long as the descriptor is a reader
+                if state['eof_fired'] and main.wire.closed_at is None and poller.isReading(main):
+                    root.fire(p_read(main), poller.getTarget(main))
+
             def iteration():
+                if spec.get('rfirst'):
+                    readable()
                 for fd in write_fds():
                     if poller.isWriting(fd):
                         root.fire(p_write(fd), poller.getTarget(fd))
+                if not spec.get('rfirst'):
+                    readable()
                 root.tick()
 
             if driver.settle(root, 50) < 0:
@@ -428,9 +502,14 @@ class C11(Prop):
                         root.fire(netev.write(payloads[i]), chan)
                 elif op == 'o':
                     root.fire(netev.write(other, others[i]), chan)
+                elif eof:
+                    if main.wire.closed_at is None and poller.isReading(main):
+                        main.eof = True
+                        state['eof_fired'] = True
+                        root.fire(p_read(main), poller.getTarget(main))
                 else:
                     if ep == 'server':
-                        root.fire(netev.close() if spec.get('closeall') else netev.close(main), chan)
+                        root.fire(netev.close() if closeall else netev.close(main), chan)
                     elif ep == 'file':
                         root.fire(ioev.close(), chan)
                     else:
@@ -452,7 +531,7 @@ class C11(Prop):
         finally:
             snap = {
                 'accepted': main.wire.accepted, 'closed_at': main.wire.closed_at,
-                'calls': list(main.wire.calls), 'fatal_calls': list(main.wire.fatal_calls),
+                'calls': list(main.wire.calls), 'offs': list(main.wire.offs), 'fatal_calls': list(main.wire.fatal_calls),
                 'after_close': main.wire.after_close, 'hard': main.wire.hard, 'consumed': set(main.wire.consumed),
                 'other_accepted': bytes(other.wire.accepted) if other is not None else b'',
                 'other_closed': other.wire.closed_at is not None if other is not None else False,
@@ -468,7 +547,9 @@ class C11(Prop):
                 except OSError:
                     pass
         return {
-            'payloads': payloads, 'others': others, 'close_at': close_at, 'snap': snap, 'exc': exc,
+            'payloads': payloads, 'expected': expected, 'kinds': kinds, 'others': others, 'close_at': close_at,
+            'eof': eof, 'eof_fired': state['eof_fired'], 'closeall': closeall, 'snap': snap, 'exc': exc,
+            'eof_seen': obs.eof_seen if obs is not None else None,
             'log': list(obs.log) if obs is not None else [], 'exceptions': list(obs.exceptions) if obs is not None else [],
             'stuck': state['stuck'], 'setup': state['setup'], 'still_writing': still_writing,
             'close_seen': obs.close_seen if obs is not None else None,
@@ -480,8 +561,11 @@ class C11(Prop):
             r = self._run(spec)
         ep = spec['ep']
         snap = r['snap']
-        payloads = r['payloads']
+        payloads = r['expected']   # the bytes each written payload stands for (str payloads: encoded)
+        kinds = r['kinds']
         close_at = r['close_at']
+        if r['eof'] and not r['eof_fired']:
+            close_at = None   # the descriptor was no reader any more (torn down by a fatal error): no EOF seen, no close
         acc = snap['accepted']
         n_all = sum(len(p) for p in payloads)
         n_pre = n_all if close_at is None else sum(len(p) for p in payloads[:close_at])
@@ -503,12 +587,14 @@ class C11(Prop):
             return bad('exception-escaped', 'exception escaped tick(): %s' % r['exc'])
 
         # in order, each byte once: accepted is always a prefix of what was written
-        if n_all <= BLOCK_LEN:  # payloads are consecutive slices of the stream: compare in place
+        if any(kinds):
+            is_prefix = len(acc) <= n_all and b''.join(payloads).startswith(acc)
+        elif n_all <= BLOCK_LEN:  # payloads are consecutive slices of the stream: compare in place
             is_prefix = len(acc) <= n_all and memoryview(_BLOCK[0])[:len(acc)] == acc
         else:
             is_prefix = _stream(0, n_all).startswith(acc)
         if not is_prefix:
-            w_all = _stream(0, n_all)
+            w_all = b''.join(payloads)
             k = 0
             m = min(len(acc), len(w_all))
             while k < m and acc[k] == w_all[k]:
@@ -531,15 +617,18 @@ class C11(Prop):
         else:
             if len(acc) < n_pre:
                 what = 'the close took effect' if snap['closed_at'] is not None else 'quiescence'
+                if close_at is not None and r['eof']:
+                    what = "the close triggered by the end of the peer's stream took effect"
                 return bad('lost', 'only %d of the %d bytes written before %s were accepted (transient refusals/partial '
                                    'sends only)' % (len(acc), n_pre, what if close_at is not None else 'quiescence'))
             if close_at is not None and snap['closed_at'] is None:
-                return bad('close-not-effected', 'close requested, buffer drained, but the descriptor was never closed')
+                return bad('close-not-effected', '%s, buffer drained, but the descriptor was never closed' % (
+                    "the peer ended its stream (recv() returned b'')" if r['eof'] else 'close requested'))
             if r['stuck'] or any(r['still_writing']):
                 return bad('writer-not-dropped', 'still registered as writer after everything was accepted (busy loop)')
         # bystander connection of the same server: untouched by the faults of the main one
         if r['others']:
-            if snap['other_accepted'] != b''.join(r['others']) and not (spec.get('closeall') and close_at is not None):
+            if snap['other_accepted'] != b''.join(r['others']) and not r['closeall']:
                 return bad('other-connection', 'second connection got %d bytes, %d written' % (
                     len(snap['other_accepted']), len(b''.join(r['others']))))
             if not b''.join(r['others']).startswith(snap['other_accepted']):
@@ -556,8 +645,39 @@ class C11(Prop):
             nw, nacc = r['close_seen']
             if sum(len(p) for p in payloads[:nw]) > nacc:
                 classes.append('close-while-buffered')
+        if close_at is not None:
+            classes.append('closekind:' + ('eof' if r['eof'] else 'close()' if r['closeall'] else 'request'))
+        if r['eof_seen'] is not None:
+            nw, nacc = r['eof_seen']
+            if sum(len(p) for p in payloads[:nw]) > nacc:
+                classes.append('eof-while-buffered')
         if close_at is not None and close_at < len(payloads):
-            classes.append('write-after-close-request')
+            classes.append('write-after-eof' if r['eof'] else 'write-after-close-request')
+        if any(kinds):
+            # first send of a str payload (File encodes it there): what did the OS do with it?
+            starts = {}
+            t = 0
+            for i, p in enumerate(payloads):
+                if kinds[i] and p:
+                    starts[t] = i
+                t += len(p)
+            for (kind, _, n), (at, k) in zip(snap['calls'], snap['offs']):
+                i = starts.get(at)
+                if i is None or n != len(payloads[i]):
+                    continue
+                del starts[at]
+                name = 'str-ascii' if kinds[i] == 1 else 'str-multibyte'
+                classes.append('first-send-%s:%s' % (name, kind))
+                if kind == 'part' and kinds[i] == 2:
+                    if payloads[i][k] & 0xC0 == 0x80:
+                        classes.append('partial-cuts-inside-character')
+                    if len(payloads[i][:k].decode('utf-8', 'ignore')) != k:
+                        classes.append('partial-after-non-ascii(char-index!=byte-index)')
+            for kk, name in ((1, 'payload:str-ascii'), (2, 'payload:str-multibyte')):
+                if kk in kinds:
+                    classes.append(name)
+            if 0 in kinds:
+                classes.append('payload:str-and-bytes-mixed')
         if snap['after_close']:
             classes.append('send-attempt-on-closed-fd')
         if any(len(p) >= 65536 for p in payloads):
@@ -568,7 +688,7 @@ class C11(Prop):
             classes.append('second-connection')
         if r['exceptions']:
             classes.append('handler-exception')
-        return Result(True, nontrivial=bool(snap['hard']), classes=classes)
+        return Result(True, nontrivial=bool(snap['hard']), classes=list(dict.fromkeys(classes)))
 
 
 PROP = C11()
